@@ -221,6 +221,31 @@ fn layer_geoms(rng: &mut Rng) -> LefLayerGeometries {
         width: if rng.chance(1, 4) { Some(posdec(rng)) } else { None },
     }
 }
+/// a list of LAYER blocks in which a block often repeats its predecessor's LAYER statement — same
+/// layer with the same options (a writer must not merge them), or the same layer with other options
+thread_local! {
+    /// generator version of the library being built: libseeds below 2^40 (the ones stored in corpus
+    /// cases) reproduce version 1 exactly; new runs draw libseeds at or above 2^40 (version 2)
+    static GEN_V: std::cell::Cell<u32> = std::cell::Cell::new(2);
+}
+fn gen_v() -> u32 { GEN_V.with(|v| v.get()) }
+pub const LIBSEED_V2: u64 = 1 << 40;
+fn layer_geoms_list(rng: &mut Rng, n: u64) -> Vec<LefLayerGeometries> {
+    let mut v: Vec<LefLayerGeometries> = vec![];
+    for _ in 0..n {
+        let mut g = layer_geoms(rng);
+        if gen_v() < 2 { v.push(g); continue; }
+        if let Some(prev) = v.last() {
+            match rng.below(6) {
+                0 | 1 => { g.layer_name = prev.layer_name.clone(); g.except_pg_net = prev.except_pg_net; g.spacing = prev.spacing.clone(); g.width = prev.width; }
+                2 => { g.layer_name = prev.layer_name.clone(); }
+                _ => {}
+            }
+        }
+        v.push(g);
+    }
+    v
+}
 fn props(rng: &mut Rng) -> Vec<LefProperty> {
     (0..if rng.chance(1, 3) { 1 + rng.below(3) } else { 0 })
         .map(|_| LefProperty {
@@ -236,7 +261,7 @@ fn pin(rng: &mut Rng) -> LefPin {
         name: name(rng),
         ports: (0..rng.below(3)).map(|_| LefPort {
             class: if opt(rng) { Some(*rng.pick(&[LefPortClass::None, LefPortClass::Core, LefPortClass::Bump])) } else { None },
-            layers: (0..rng.below(3)).map(|_| layer_geoms(rng)).collect(),
+            layers: { let n = rng.below(if gen_v() < 2 { 3 } else { 4 }); layer_geoms_list(rng, n) },
         }).collect(),
         direction: if rng.coin() { Some(match rng.below(5) { 0 => LefPinDirection::Input, 1 => LefPinDirection::Output { tristate: false }, 2 => LefPinDirection::Output { tristate: true }, 3 => LefPinDirection::Inout, _ => LefPinDirection::FeedThru }) } else { None },
         use_: if rng.coin() { Some(*rng.pick(&[LefPinUse::Signal, LefPinUse::Analog, LefPinUse::Power, LefPinUse::Ground, LefPinUse::Clock])) } else { None },
@@ -259,7 +284,7 @@ fn mac(rng: &mut Rng, old_version: bool) -> LefMacro {
     LefMacro {
         name: name(rng),
         pins: (0..rng.below(4)).map(|_| pin(rng)).collect(),
-        obs: if opt(rng) { (0..1 + rng.below(3)).map(|_| layer_geoms(rng)).collect() } else { vec![] },
+        obs: if opt(rng) { let n = 1 + rng.below(3); layer_geoms_list(rng, n) } else { vec![] },
         class: if rng.coin() {
             Some(match rng.below(9) {
                 0 => LefMacroClass::Cover { bump: false },
@@ -285,7 +310,12 @@ fn mac(rng: &mut Rng, old_version: bool) -> LefMacro {
         fixed_mask: rng.chance(1, 5),
         properties: props(rng),
         density: if rng.chance(1, 4) {
-            Some((0..rng.below(3)).map(|_| LefDensityGeometries { layer_name: name(rng), geometries: (0..rng.below(3)).map(|_| LefDensityRectangle { pt1: pt(rng), pt2: pt(rng), density_value: posdec(rng) }).collect() }).collect())
+            let mut v: Vec<LefDensityGeometries> = vec![];
+            for _ in 0..rng.below(if gen_v() < 2 { 3 } else { 4 }) {
+                let nm = match v.last() { Some(p) if gen_v() >= 2 && rng.chance(1, 3) => p.layer_name.clone(), _ => name(rng) }; // consecutive blocks on one layer
+                v.push(LefDensityGeometries { layer_name: nm, geometries: (0..rng.below(3)).map(|_| LefDensityRectangle { pt1: pt(rng), pt2: pt(rng), density_value: posdec(rng) }).collect() });
+            }
+            Some(v)
         } else { None },
     }
 }
@@ -325,8 +355,56 @@ fn propdef(rng: &mut Rng) -> LefPropertyDefinition {
         _ => { let (v, r) = (val(rng), range(rng)); LefPropertyDefinition::LefInteger(ot, plain_name(rng), v, r) }
     }
 }
+/// Fill every field of a library that the LEF → raw importer does not read (header statements, units,
+/// macro CLASS / FOREIGN / ORIGIN / SYMMETRY / SITE / EEQ / properties / density, pin attributes, port
+/// classes, shape masks) with generated values: the imported geometry must not depend on any of them.
+pub fn decorate_for_import(lib: &mut LefLibrary, seed: u64) {
+    GEN_V.with(|v| v.set(2));
+    let mut rng = Rng::new(seed.wrapping_mul(0x9E37_79B9_7F4A_7C15) ^ 0xdec0);
+    let rng = &mut rng;
+    let opt = |rng: &mut Rng| rng.chance(1, 2);
+    if opt(rng) { lib.version = Some(D::new(58, 1)); }
+    if opt(rng) { lib.bus_bit_chars = Some(('[', ']')); }
+    if opt(rng) { lib.divider_char = Some('/'); }
+    if opt(rng) { lib.units = Some(LefUnits { database_microns: Some(LefDbuPerMicron(*rng.pick(&[100u32, 1000, 2000, 20000]))), ..Default::default() }); }
+    if opt(rng) { lib.manufacturing_grid = Some(posdec(rng)); }
+    for m in lib.macros.iter_mut() {
+        let d = mac(rng, false);
+        if opt(rng) { m.class = d.class; }
+        if opt(rng) { m.foreign = d.foreign; }
+        if opt(rng) { m.origin = Some(LefPoint::new(D::new(rng.range(-40, 40), 1), D::new(rng.range(-40, 40), 2))); }
+        if opt(rng) { m.symmetry = d.symmetry; }
+        if opt(rng) { m.site = d.site; }
+        if opt(rng) { m.eeq = d.eeq; }
+        if opt(rng) { m.properties = d.properties; }
+        if opt(rng) { m.density = d.density; }
+        m.fixed_mask = d.fixed_mask;
+        for p in m.pins.iter_mut() {
+            let q = pin(rng);
+            if opt(rng) { p.direction = q.direction; }
+            if opt(rng) { p.use_ = q.use_; }
+            if opt(rng) { p.shape = q.shape; }
+            if opt(rng) { p.antenna_model = q.antenna_model; p.antenna_attrs = q.antenna_attrs; }
+            if opt(rng) { p.taper_rule = q.taper_rule; p.must_join = q.must_join; p.net_expr = q.net_expr; p.properties = q.properties; }
+            for port in p.ports.iter_mut() {
+                if opt(rng) { port.class = Some(*rng.pick(&[LefPortClass::None, LefPortClass::Core, LefPortClass::Bump])); }
+                for lg in port.layers.iter_mut() { decorate_masks(lg, rng); }
+            }
+        }
+        for lg in m.obs.iter_mut() { decorate_masks(lg, rng); }
+    }
+}
+fn decorate_masks(lg: &mut LefLayerGeometries, rng: &mut Rng) {
+    for g in lg.geometries.iter_mut() {
+        if let LefGeometry::Shape(s) = g {
+            let mk = mask(rng);
+            match s { LefShape::Rect(m, _, _) => *m = mk, LefShape::Polygon(m, _) => *m = mk, LefShape::Path(m, _) => *m = mk }
+        }
+    }
+}
 /// (library, END LIBRARY must be written)
 pub fn gen_lib(seed: u64) -> LefLibrary {
+    GEN_V.with(|v| v.set(if seed < LIBSEED_V2 { 1 } else { 2 }));
     let mut rng = Rng::new(seed.wrapping_mul(0x2545_F491_4F6C_DD1D) ^ 0x1ef);
     let rng = &mut rng;
     let version = match rng.below(8) { 0 => None, 1 => Some(D::new(53, 1)), 2 => Some(D::new(54, 1)), 3 => Some(D::new(55, 1)), 4 => Some(D::new(56, 1)), 5 => Some(D::new(57, 1)), _ => Some(D::new(58, 1)) };
@@ -1003,7 +1081,7 @@ const ENUM_WORDS: &[&str] = &["on", "OFF", "Macro", "end", "LIBRARY", "x", "r90"
 pub fn gen_c04(thorough: bool, rng: &mut Rng, out: &mut Vec<String>) {
     let nlib = if thorough { 5000 } else { 500 };
     for i in 0..nlib {
-        let libseed = rng.next() % 1_000_000_007;
+        let libseed = LIBSEED_V2 + rng.next() % 1_000_000_007;
         let lib = gen_lib(libseed);
         let styles = if thorough { 3 } else { 2 };
         for j in 0..styles {
@@ -1050,7 +1128,7 @@ fn lengthen(lib: &mut LefLibrary, rng: &mut Rng) {
 pub fn gen_c05(thorough: bool, rng: &mut Rng, out: &mut Vec<String>) {
     let nlib = if thorough { 8000 } else { 800 };
     for i in 0..nlib {
-        let libseed = rng.next() % 1_000_000_007;
+        let libseed = LIBSEED_V2 + rng.next() % 1_000_000_007;
         let mut lib = gen_lib(libseed);
         if i % 16 == 5 { lengthen(&mut lib, rng); }
         let txt = render(&lib, if i % 2 == 0 { 0 } else { rng.below(1 << 40) });
@@ -1147,7 +1225,7 @@ pub fn gen_c11(thorough: bool, rng: &mut Rng, out: &mut Vec<String>) {
         }
     }
     for b in 0..nbase {
-        let libseed = rng.next() % 1_000_000_007;
+        let libseed = LIBSEED_V2 + rng.next() % 1_000_000_007;
         let lib = gen_lib(libseed);
         let txt = render(&lib, rng.below(1 << 40));
         // every fourth base text is also used as ONE long line (no comments, blanks only)
